@@ -81,7 +81,9 @@ def do_verify(d, checks):
         if rc != 0:
             meta["error"] = out[-500:]
             return meta
-        rc, out = sh("cmake -S . -B _build -G Ninja >/dev/null && cmake --build _build 2>&1 | tail -3 && ctest --test-dir _build -j8 2>&1 | tail -5", cwd=wt, timeout=3600)
+        bt = os.environ.get("SEEDED_BUILD_TYPE", "")   # "" = the README's default configuration (assertions on); the pinned build is RelWithDebInfo
+        meta["baseline_build_type"] = bt or "default (assertions enabled)"
+        rc, out = sh("cmake -S . -B _build -G Ninja -DCMAKE_BUILD_TYPE=" + bt + " >/dev/null 2>&1 && cmake --build _build 2>&1 | tail -3 && ctest --test-dir _build -j8 2>&1 | tail -5", cwd=wt, timeout=3600)
         m = re.search(r"(\d+)% tests passed, (\d+) tests failed out of (\d+)", out)
         meta["baseline_tests_with_patch"] = m.group(0) if m else out[-300:]
         meta["baseline_passes"] = bool(m and m.group(2) == "0")
